@@ -35,6 +35,7 @@ XML_PROTOS = ('XmlDocument', 'Soap11', 'Soap12')
 DICT_PROTOS = ('JsonDocument', 'YamlDocument', 'MessagePackDocument')
 KEEP_ALIVE = []      # generated classes are never freed: memoize_id caches are keyed by id()
 STATS = {}
+ORACLE = {'roundtrips': 0, 'documents': 0, 'negative': 0}
 REPORTED = {}       # coarse class of a violation -> number of times reported (at most 3 replays per class)
 SUPPRESSED = {}
 
@@ -1124,6 +1125,8 @@ def oracle_case(check, desc, b, mi, v, proto, poly, report=True):
     pre = 'C16|%s|poly=%s' % (family(proto), 'on' if poly else 'off')
     shape = value_shape(desc, m['ty'], v)
     r = observe(lb.call, m['name'], sent)
+    ORACLE['roundtrips'] += 1
+    ORACLE['documents'] += len(lb.trace)
     want_v = v if poly else project(desc, m['ty'], v)
     want = norm_value(dd, want_v)
     if r[0] != 'ok':
@@ -1252,6 +1255,7 @@ def oracle_negative(check, desc, b, mi, v, proto, report=True):
             raw = dumps(doc)
         del b.captured[:]
         lb.serve(raw)
+        ORACLE['negative'] += 1
         if lb.last_error is None or b.captured:
             got = [U.from_native(dd, full, x) for x in b.captured]
             fails.append(('C16|%s|marker-not-refused|%s' % (family(proto), 'unknown' if bad == 'Nope' else 'non-subclass'),
@@ -1432,10 +1436,19 @@ def run_program(check, desc, tag, tier, with_codecs=True, fixed=None):
 def run(check):
     tier = check.tier
     rng = check.rng
-    check.rule = ('generated programs: 1-2 class hierarchies of depth <= 3 (subclasses in the namespace of their base, a few '
-                  'placed elsewhere, member-less intermediate classes, recursive members), an unrelated class, containers with '
-                  'single / max_occurs>1 / Array members of base type, echo methods over plain and customised declared types; '
-                  'a case is distinct by (operation, protocol, polymorphic, program, value or document)')
+    check.rule = ('4 fixed programs (theorem witnesses, boundary shapes) then generated programs: 1-2 class hierarchies of depth '
+                  '<= 3 (subclasses in the namespace of their base, a few placed elsewhere, member-less intermediate classes, '
+                  'recursive members), an unrelated class, containers with single / max_occurs>1 / Array members of base type, '
+                  'echo methods over plain and customised declared types, all members customised variants; plus programs with '
+                  'redeclared members and member-less roots for the type-info / registry correspondences only. Correspondence: '
+                  'class statements -> __extends__ and flattened type info, interface registry, XML trees with the receiver-side '
+                  'resolution of every xsi:type, from_element on valid and mutated documents (marker renamed / rebound / '
+                  'unbound / added / removed, structure edits; validator None and soft), dict documents and _doc_to_object on '
+                  'valid and mutated documents (wrapper key renamed, doubled, emptied, replaced). Direct oracle: every value '
+                  'through a loopback client and ServerBase for six protocols x polymorphic on/off (objects received by user '
+                  'code and by the client, type markers, member order and member set of both documents), and requests whose '
+                  'marker names an unknown / unrelated class. A case is distinct by (operation, protocol, polymorphic, '
+                  'program, value or document).')
     check.trusted = list(lib.COMMON_TRUSTED) + [
         'lxml: SubElement(..., nsmap={prefix: uri}) declares the prefix on the new element; cleanup_namespaces('
         'keep_ns_prefixes=...) keeps it; element.nsmap is the innermost-first union of the declarations of the element '
@@ -1478,6 +1491,7 @@ def run(check):
     probe_empty_root(check)
     lib.flush_correspondences(check)
     check.extra['outcomes_by_mutation'] = dict(sorted(STATS.items()))
+    check.extra['oracle'] = dict(ORACLE)
     if SUPPRESSED:
         check.extra['further_violations_of_reported_classes'] = dict(sorted(SUPPRESSED.items()))
     return check.finish()
